@@ -344,6 +344,7 @@ func c19(r *core.Run) {
 		}
 	}
 	// (b) soundness on well-formed types
+	var prevAuto *proto.ColAuto
 	n = r.Pick(4000, 80000)
 	for k := 0; k < n; k++ {
 		ci++
@@ -364,6 +365,11 @@ func c19(r *core.Run) {
 		}
 		ct := proto.ColumnType(s)
 		var a proto.ColAuto
+		reused := false
+		if prevAuto != nil && rng.Intn(3) == 0 {
+			// a column object that was inferred for another type before (a reused AutoResult target)
+			a, reused = *prevAuto, true
+		}
 		var ierr error
 		if p := core.Recover(func() { ierr = a.Infer(ct) }); p != "" {
 			r.Violation("ColAuto.Infer:panic", fmt.Sprintf("%q: %s", s, p), s)
@@ -399,16 +405,22 @@ func c19(r *core.Run) {
 			continue
 		}
 		var res proto.Results
+		var target proto.Result = res.Auto()
+		if reused {
+			res = proto.Results{{Name: "c", Data: &a}}
+			target = res
+		}
+		prevAuto = &a
 		var derr error
 		if p := core.Recover(func() {
 			var blk proto.Block
-			derr = blk.DecodeBlock(proto.NewReader(bytes.NewReader(w.B)), 54460, res.Auto())
+			derr = blk.DecodeBlock(proto.NewReader(bytes.NewReader(w.B)), 54460, target)
 		}); p != "" {
 			r.Violation("ColAuto:decode-panic:"+typeSite(t), fmt.Sprintf("%q: %s", s, p), s)
 			continue
 		}
 		if derr != nil {
-			r.Violation("ColAuto:decode-error:"+typeSite(t), fmt.Sprintf("inferred column for %q cannot decode a block of that type: %v", s, derr), s)
+			r.Violation("ColAuto:decode-error:"+typeSite(t), fmt.Sprintf("inferred column for %q (column reused=%v) cannot decode a block of that type: %v", s, reused, derr), s)
 			continue
 		}
 		got, err := val.ReadCol(res[0].Data, t)
@@ -420,11 +432,14 @@ func c19(r *core.Run) {
 			if strings.Contains(err.Error(), "enum name") {
 				cls = "enum-name"
 			}
-			r.Violation("ColAuto:decode-wrong:"+cls, fmt.Sprintf("%q: %v", s, err), s)
+			if reused {
+				cls += ":reused-column"
+			}
+			r.Violation("ColAuto:decode-wrong:"+cls, fmt.Sprintf("%q (column reused=%v): %v", s, reused, err), s)
 			continue
 		}
 		if d := diffVals(vals, got); d != "" {
-			r.Violation("ColAuto:decode-wrong:values:"+typeSite(t), fmt.Sprintf("%q: %s", s, d), s)
+			r.Violation("ColAuto:decode-wrong:values:"+typeSite(t), fmt.Sprintf("%q (column reused=%v): %s", s, reused, d), s)
 		}
 		if k%500 == 0 {
 			r.Sample(map[string]any{"wellformed": s, "inferred_type": string(ty), "rows": rows})
